@@ -110,6 +110,21 @@ extern "C" void harness_run()
       p.gap.push_back(gs[sim::draw(6)]);
     }
   }
+  // flood: one peer sends a back-to-back burst while the data handler holds the I/O thread, so that far more datagrams are pending
+  // on one listener socket than one wake-up usually sees; afterwards that peer is silent (nothing "rescues" datagrams left behind)
+  struct Flood { bool on = false; int peer = 0; int after = 0; int n = 0; uint32_t stall_us = 0; int listener = 0; } flood;
+  flood.on = sim::draw(5) == 4;
+  if (flood.on)
+  {
+    static const int ns[] = {65, 100, 129, 130, 160, 200, 260, 300};
+    static const uint32_t st[] = {0, 3000, 30000};
+    flood.peer = (int)sim::draw((uint64_t)npeers);
+    flood.after = (int)sim::draw(pplan[(size_t)flood.peer].dg.size());
+    flood.n = ns[sim::draw(8)];
+    flood.stall_us = st[sim::draw(3)];
+    flood.listener = (int)sim::draw(w.nlisteners);
+    nc.udp_rcv_datagrams = 4096; // the simulated socket queue never overflows: a missing data event is the engine's
+  }
   int nact = 1 + (int)sim::draw(th ? 3 : 2);
   std::vector<std::vector<Op>> plan(nact);
   for (auto& v : plan)
@@ -135,6 +150,7 @@ extern "C" void harness_run()
     for (auto& d : pplan[p].dg) l += " " + std::to_string(d.second) + "B->" + std::to_string(5000 + d.first);
     sim::notef("%s", l.c_str());
   }
+  if (flood.on) sim::notef("flood: peer %d sends %d small datagrams back to back to port %d after its datagram #%d; handler holds the I/O thread %u us on the first", flood.peer, flood.n, 5000 + flood.listener, flood.after, flood.stall_us);
   static const char* opn[] = {"connect", "via-listener", "send", "send-big", "close", "sleep", "burst"};
   for (int a = 0; a < nact; a++)
   {
@@ -152,7 +168,13 @@ extern "C" void harness_run()
   w.tr = Transport::udp(tc);
   w.tr->onAccept([&](SessionId sid, const TransportAddress& a) { rec(E_ACCEPT, sid, addr_s(a), ""); });
   w.tr->onConnect([&](SessionId sid, const TransportAddress& a) { rec(E_CONNECT, sid, addr_s(a), ""); });
-  w.tr->onData([&](SessionId sid, iora::core::BufferView d, std::chrono::steady_clock::time_point) { rec(E_DATA, sid, "", std::string((const char*)d.data(), d.size())); });
+  std::atomic<bool> floodStalled{false};
+  w.tr->onData([&](SessionId sid, iora::core::BufferView d, std::chrono::steady_clock::time_point)
+  {
+    rec(E_DATA, sid, "", std::string((const char*)d.data(), d.size()));
+    if (flood.on && flood.stall_us && d.size() >= 8 && d.data()[0] == 'P' && d.data()[4] == '1' && !floodStalled.exchange(true)) // seq >= 1000: a flood datagram
+      sim::sleep_ns((uint64_t)flood.stall_us * 1000ull); // slow handler
+  });
   w.tr->onClose([&](SessionId sid, const TransportErrorInfo&) { rec(E_CLOSE, sid, "", ""); });
   if (w.tr->start().isErr()) sim::fail("harness", "start failed");
   for (int i = 0; i < w.nlisteners; i++)
@@ -196,6 +218,20 @@ extern "C" void harness_run()
           ssize_t n = ::recv(pfds[p], buf.data(), buf.size(), 0);
           if (n >= 0) peerGot[p].push_back(std::string(buf.data(), (size_t)n));
         } while (sim::now() < until);
+        if (flood.on && p == flood.peer && (int)i == flood.after)
+        {
+          int fport = 5000 + flood.listener;
+          sockaddr_in fto = peer::addr("127.0.0.1", fport);
+          int sent = 0;
+          for (int j = 0; j < flood.n; j++)
+          {
+            std::string fd = peer_payload(p, 1000 + j, fport, 15 + (size_t)(j % 70));
+            uint64_t fst = sim::stamp();
+            ssize_t fk = ::sendto(pfds[p], fd.data(), fd.size(), 0, (sockaddr*)&fto, sizeof fto);
+            if (fk == (ssize_t)fd.size()) { std::lock_guard<std::mutex> g(w.mx); w.peerSent.push_back({p, 1000 + j, fport, fd, fst}); sent++; }
+          }
+          sim::count("c06.flood_datagrams", (uint64_t)sent);
+        }
       }
       while (!w.peersStop.load())
       {
